@@ -38,6 +38,8 @@ def hash_groups():
     for nm, fn, txt in (('find_visit', 'cstl_hash_find_visit', 'one step of a lookup: an element is offered to the visit function exactly when its key matches (once, with the caller\'s private pointer); it becomes the result and stops the walk exactly when it matches and is accepted (or no visit function is given)'),
                         ('erase_visit', 'cstl_hash_erase_visit', 'one step of an erase: stops exactly at the object passed (pointer identity), otherwise the link cursor advances to the visited node\'s next field')):
         G.append(Group('hash.' + nm, ['C03'], 'P', S, 'h_' + nm, enforce=fn, sources=[('hash.c', {'loops': L, 'normalise': True})], defines=['-DVF_G_find_visit'], what=txt, unwind=3))
+    G.append(Group('hash.swap', ['C03'], 'P', S, 'h_swap', enforce='cstl_hash_swap', sources=src, defines=['-DVF_G_swap'],
+                   what='swap exchanges the two table objects completely (bucket array, both geometries, sweep position, stamp, count, offset) and writes nothing else, for any field values'))
     G.append(Group('hash.insert', ['C03'], 'P', S, 'h_insert', enforce='cstl_hash_insert', replace=['cstl_hash_get_bucket'],
                    sources=[('hash.c', {'loops': L, 'normalise': True})], defines=['-DVF_G_insert', '-DVF_BYTE_STAMPS'], timeout=2400, solver='kissat', tier='thorough', weight=2,
                    what='insert: the element heads the chain of the bucket the effective function selects for its key, key stored, counted; flat and sweep invariants kept (get_bucket replaced by its proved contract)'))
@@ -253,6 +255,8 @@ def string_groups():
             g('insert', ['C10'], 'h_insert', 'cstl_%sstring_insert' % W_,
               'insert of a string object (header wrapper; insert_str_n replaced by its proved contract): all size(ins) characters are inserted, embedded NULs included',
               covers=['end'], replace=['cstl_%sstring_insert_str_n' % W_], defs=['-DVF_G_insert', '-DVF_G_insert_str_n', '-DVF_INS_NEW', '-DVF_ASSUMED_POST'])
+            if not fam:
+                g('swap', ['C10'], 'h_sswap', 'cstl_%sstring_swap' % W_, 'swap: the two string objects exchange storage, size and capacity, nothing else is written', defs=['-DVF_G_sswap'])
             g('at', ['C10'], 'h_at', 'cstl_%sstring_at' % ('w' if w == 'wide' else ''), 'at: abort iff index >= size', covers=['abort'] if fam else ['end', 'abort'])
             g('str', ['C10'], 'h_str', 'cstl_%sstring_str' % ('w' if w == 'wide' else ''), 'str: size characters followed by NUL')
             if not fam:
